@@ -244,7 +244,11 @@ def run_search(prop_name, seed, tier, n_runs, jobs, options, wall_budget=None):
         pending = {}
         it = iter(batches)
 
+        stop = [False]
+
         def submit_next():
+            if stop[0]:
+                return False
             if wall_budget is not None and time.time() - t0 > wall_budget:
                 return False
             try:
@@ -283,6 +287,7 @@ def run_search(prop_name, seed, tier, n_runs, jobs, options, wall_budget=None):
                     pending.pop(fut)
                     fut.cancel()
             if len([x for x in violations if match_known(x['violation'], findings_main) is None]) >= options.get('max_violations', 40):
+                stop[0] = True
                 for fut in list(pending):
                     fut.cancel()
                 # let running futures finish
